@@ -30,6 +30,8 @@ def run(project, rep):
     rep.run(S.s_r5_listkinds, schema, rep)
     rep.run(S.s_r6_constraints, schema, rep)
     rep.run(S.s_r6d_route_independent_constraints, schema, rep)
+    rep.run(S.s_r6g_presence_tables, schema, rep)
+    rep.run(S.s_r6f_presence_not_truth, schema, rep)
     rep.run(S.s_r6e_all_equal_helper, schema, rep)
     rep.run(S.s_r12_superdict_precedence, schema, rep)
     rep.run(S.s_r7_shadowing, schema, rep)
